@@ -36,7 +36,7 @@ func init() {
 		}})
 	reg(&Oblig{ID: "BL-addbyte", Pkg: "utils", Func: "VP_BL_addbyte", Props: []string{"C18"}, Desc: "AddByte(b): 8 bits MSB first",
 		Real: blReal, Stubs: []string{inv}, Bound: "L in {0,1,2} quick, {0..4} thorough; count, byte and words symbolic", Configs: tiered(one("L", 0, 1, 2), one("L", 0, 1, 2, 3, 4))})
-	reg(&Oblig{ID: "BL-bytes", Pkg: "utils", Func: "VP_BL_bytes", Props: []string{"C18"}, Desc: "GetBytes and IterateBytes: packed bytes, zero padded, channel closed after the last byte",
+	reg(&Oblig{ID: "BL-bytes", Pkg: "utils", Func: "VP_BL_bytes", Props: []string{"C18", "C16"}, Desc: "GetBytes and IterateBytes: packed bytes, zero padded, channel closed after the last byte",
 		Real: blReal, Stubs: []string{inv, "IterateBytes goroutine run as a coroutine (Kahn producer)"}, Bound: "L in {0..3} quick (+4,5 thorough), every count 0..32L enumerated, words symbolic",
 		Configs: tiered(one("L", 0, 1, 2, 3), one("L", 0, 1, 2, 3, 4, 5)),
 		Tune:    func(in *exec.Instance, tier string) { in.MaxConcretize = 400 }})
